@@ -20,7 +20,8 @@ from __future__ import annotations
 import z3
 
 from .npmodel import ArrObj, NumpyModel, TArr, _arr, _conv, _is_arr, arr_sort
-from .values import BoundMethod, BuiltinV, DictObj, HeapObj, ListObj, PyObj, Ref, SetObj, StrS, SV, T, TBool, TInt, TReal, TStr, Unsupported, is_concrete
+from .values import (BoundMethod, BuiltinV, DictObj, HeapObj, ListObj, PyObj, Ref, SetObj, StrS, SV, T, TBool, TDict, TInt, TOpt, TReal, TStr, TVal, Unsupported,
+                     declare_ghost, is_concrete, str_lit, val_none)
 
 _np = NumpyModel()
 str_of_int = z3.Function("str_of_int", z3.IntSort(), StrS)
@@ -28,6 +29,7 @@ hs_off = z3.Function("c14_hstack_off", z3.ArraySort(z3.IntSort(), z3.IntSort()),
 hs_blk = z3.Function("c14_hstack_blk", z3.ArraySort(z3.IntSort(), z3.IntSort()), z3.IntSort(), z3.IntSort())  # block of a position
 
 
+pow2 = z3.Function("c14_pow2", z3.IntSort(), z3.IntSort())
 lin_t = z3.Function("np_linspace_t", z3.IntSort(), z3.IntSort(), z3.RealSort())  # t(i, n) = i / (n - 1): relative position of sample i among n
 
 
@@ -49,6 +51,61 @@ NUM_CACHE_FIELDS = ("_DesignSpace__norm_data_is_computed", "_DesignSpace__lower_
 
 def _on(ex):
     return getattr(ex.contract, "c14", False)
+
+
+# ---- third-party samplers (OpenTURNS / SciPy / pyDOE): uninterpreted deterministic functions; the last call is recorded in ghost variables
+KW = TDict(TStr, TVal)
+F2T = TArr("f", 2)
+tp_samples = z3.Function("c14_third_party_samples", StrS, z3.IntSort(), TVal.sort(), z3.IntSort(), KW.sort(), F2T.sort())  # (algorithm, dimension, n_samples, seed, options)
+random_state = z3.Function("c14_random_state", z3.IntSort(), TVal.sort())  # numpy.random.RandomState(seed)
+int_of_val = z3.Function("c14_int_of_val", TVal.sort(), z3.IntSort())
+val_truth = z3.Function("c14_val_truth", TVal.sort(), z3.BoolSort())
+scipy_at_least = z3.Function("c14_scipy_at_least", StrS, z3.BoolSort())  # parse_version(v) <= SCIPY_VERSION
+TP_GHOSTS = {"c14_tp_calls": z3.IntSort(), "c14_tp_algo": StrS, "c14_tp_dim": z3.IntSort(), "c14_tp_n": TVal.sort(), "c14_tp_seed": z3.IntSort(),
+             "c14_tp_opts": KW.sort(), "c14_ot_seed": z3.IntSort()}
+for _g, _s in TP_GHOSTS.items():
+    declare_ghost(_g, _s)
+TABLES = {"_OpenTURNS__NAMES_TO_CLASSES": "openturns", "_SciPyDOE__NAMES_TO_CLASSES": "scipy", "_PyDOELibrary__NAMES_TO_FUNCTIONS": "pydoe"}
+
+
+class TableV:
+    """The class-level mapping algorithm name -> third-party class / function of a wrapper library."""
+
+    def __init__(self, lib):
+        self.lib = lib
+
+
+class AlgoV:
+    """A third-party sampler class / instance / function selected by the algorithm name."""
+
+    def __init__(self, lib, name, stage, dim=None, seed=None, opts=None):
+        self.lib, self.name, self.stage, self.dim, self.seed, self.opts = lib, name, stage, dim, seed, opts
+
+
+class VersionV:
+    def __init__(self, s):
+        self.s = s
+
+
+def _opts_term(ex, kwargs, skip=()):
+    """Options of a third-party call as a KW term: the `**d` dictionary (explicit keywords other than `skip` are not supported)."""
+    st = ex.st
+    extra = [k for k in kwargs if k != "**" and k not in skip]
+    if extra:
+        raise Unsupported(f"third-party call with explicit keywords {extra}")
+    if "**" in kwargs:
+        return KW.embed(st, kwargs["**"])
+    return KW.embed(st, st.alloc(DictObj.empty(st, TStr, TVal)))
+
+
+def _tp_call(ex, algo, dim, n, seed, opts):
+    st = ex.st
+    st.ghost_set("c14_tp_calls", st.ghost_get("c14_tp_calls", z3.IntSort()) + 1)
+    for g, t in (("c14_tp_algo", algo), ("c14_tp_dim", dim), ("c14_tp_n", n), ("c14_tp_seed", seed), ("c14_tp_opts", opts)):
+        st.ghost_set(g, t)
+    ex.assumed.add("third-party samplers (OpenTURNS / SciPy / pyDOE): the returned array is the deterministic uninterpreted function c14_third_party_samples of "
+                   "(algorithm name, dimension, number of samples, seed, options); the call is recorded in the ghost variables c14_tp_*")
+    return F2T.project(st, tp_samples(algo, dim, n, seed, opts))
 
 
 def hstack_axioms(lens, n):
@@ -116,6 +173,33 @@ class C14Models:
         return dict(o.vals) if o is not None else NotImplemented
 
     def call_method(self, ex, recv, name, args, kwargs, lineno):
+        if isinstance(recv, AlgoV) and recv.stage == "instance":
+            st = ex.st
+            if recv.lib == "openturns" and name == "tp:generate_samples" and len(args) == 2:
+                # gemseo's BaseOTDOE.generate_samples(n_samples, dimension, **settings) of the selected algorithm, drawing from the global
+                # OpenTURNS random generator (seeded by RandomGenerator.SetSeed: ghost c14_ot_seed)
+                return _tp_call(ex, recv.name, TInt.embed(st, args[1]), TVal.embed(st, args[0]), st.ghost_get("c14_ot_seed", z3.IntSort()), _opts_term(ex, kwargs))
+            if recv.lib == "scipy" and name == "tp:random" and len(args) == 1 and not kwargs:
+                return _tp_call(ex, recv.name, recv.dim, TVal.embed(st, args[0]), recv.seed, recv.opts)
+            raise Unsupported(f"third-party method {name}")
+        if _on(ex) and name == "remove" and len(args) == 1 and isinstance(recv, Ref) and isinstance(ex.st.heap.get(recv.id), ListObj):
+            # list.remove(x): the first occurrence is removed (ValueError when absent)
+            from .engine import PyRaise
+
+            st = ex.st
+            L = st.heap[recv.id]
+            et = L.t.embed(st, args[0])
+            i = z3.Int("i!rm")
+            if not st.decide(z3.Exists([i], z3.And(0 <= i, i < L.n, L.elems[i] == et))):
+                raise PyRaise("ValueError", lineno)
+            r = st.fresh_int("rmidx")
+            st.assume(z3.And(0 <= r, r < L.n, L.elems[r] == et))
+            st.assume(z3.ForAll([i], z3.Implies(z3.And(0 <= i, i < r), L.elems[i] != et)))
+            old = L.elems
+            L.elems = z3.Lambda([i], z3.If(i < r, old[i], old[i + 1]))
+            L.n = L.n - 1
+            ex.writeback(L)
+            return None
         o = _kw(ex, recv)
         if o is not None:
             if name == "get" and args and isinstance(args[0], str):
@@ -124,6 +208,9 @@ class C14Models:
         return NotImplemented
 
     def getitem(self, ex, cont, key, lineno):
+        if isinstance(cont, TableV):
+            # (the algorithm name was checked against ALGORITHM_INFOS at construction: BaseAlgorithmLibrary.__init__; the tables have the same keys)
+            return AlgoV(cont.lib, TStr.embed(ex.st, key), "class")
         o = _kw(ex, cont)
         if o is not None:
             from .engine import PyRaise
@@ -168,6 +255,78 @@ class C14Models:
             return item in o.vals
         return NotImplemented
 
+    # ------------------------------------------------------------------ third-party samplers
+    def class_constant(self, ex, ci, name):
+        if _on(ex) and name in TABLES:
+            return TableV(TABLES[name])
+        if _on(ex) and name == "_SciPyDOE__SCIPY_OPTION_NAMES":
+            # the class-level list of option names (a list literal of strings)
+            _, expr = __import__("pyvc.source", fromlist=["x"]).find_class_attr(ci.qualname, name)
+            return ex.models.make_list(ex, [e.value for e in expr.elts])
+        return NotImplemented
+
+    def module_constant(self, ex, mi, name):
+        if _on(ex) and name == "SCIPY_VERSION":
+            return VersionV(None)
+        return NotImplemented
+
+    def value_attr(self, ex, obj, attr, lineno):
+        if isinstance(obj, AlgoV):
+            return BoundMethod(obj, None, f"tp:{attr}")
+        return NotImplemented
+
+    def compare_any(self, ex, op, a, b, lineno):
+        if isinstance(a, VersionV) and isinstance(b, VersionV) and (a.s is None) != (b.s is None):
+            # parse_version(v) <op> SCIPY_VERSION: the uninterpreted predicate "the installed SciPy is at least v"
+            v, inst_right = (a.s, True) if b.s is None else (b.s, False)
+            al = scipy_at_least(str_lit(v))
+            if not inst_right:
+                op = {"Lt": "Gt", "LtE": "GtE", "Gt": "Lt", "GtE": "LtE"}.get(op, op)
+            if op == "LtE":
+                return SV(al, TBool)
+            if op == "Gt":
+                return SV(z3.Not(al), TBool)
+            raise Unsupported(f"version comparison {op}")
+        return NotImplemented
+
+    def call_opaque(self, ex, fv, args, kwargs, lineno):
+        st = ex.st
+        if isinstance(fv, AlgoV) and fv.stage == "class":
+            if fv.lib == "openturns" and not args and not kwargs:
+                return AlgoV(fv.lib, fv.name, "instance")
+            if fv.lib == "scipy" and len(args) == 1 and "seed" in kwargs:
+                return AlgoV(fv.lib, fv.name, "instance", dim=TInt.embed(st, args[0]), seed=TInt.embed(st, kwargs["seed"]), opts=_opts_term(ex, kwargs, skip=("seed",)))
+            if fv.lib == "pydoe" and len(args) == 1:
+                # a pyDOE function f(n, **options): the number of samples / the random state are among the options
+                return _tp_call(ex, fv.name, TInt.embed(st, args[0]), val_none, z3.IntVal(0), _opts_term(ex, kwargs))
+            raise Unsupported(f"third-party constructor call of library {fv.lib}")
+        return NotImplemented
+
+    def binop(self, ex, op, a, b, lineno, inplace=False):
+        if _on(ex) and op == "Pow" and isinstance(a, int) and not isinstance(a, bool) and a == 2 and isinstance(b, SV) and b.ty == TInt:
+            # 2 ** d for an int d >= 0: the uninterpreted pow2 with pow2(d) >= 1 (a negative exponent would give a float: not modelled)
+            if not ex.st.decide(b.term >= 0):
+                raise Unsupported("2 ** d with a negative exponent")
+            ex.st.assume(pow2(b.term) >= 1)
+            ex.assumed.add("2 ** d for an int d >= 0: uninterpreted function pow2 with pow2(d) >= 1")
+            return SV(pow2(b.term), TInt)
+        return NotImplemented
+
+    def truth(self, ex, v):
+        if _on(ex) and isinstance(v, SV) and v.ty == TVal:
+            # truth value of a validated setting: None is false, an int is true iff non-zero, anything else is opaque
+            from .values import val_of_int
+
+            t = v.term
+            return z3.If(t == val_none, z3.BoolVal(False), z3.If(t == val_of_int(int_of_val(t)), int_of_val(t) != 0, val_truth(t)))
+        return NotImplemented
+
+    def coerce(self, ex, v, t):
+        if _on(ex) and isinstance(t, TOpt) and t.inner == TInt and isinstance(v, SV) and v.ty == TVal:
+            # a validated setting (opaque value) used as Optional[int]: None, or the int it holds
+            return SV(z3.If(v.term == val_none, t.dt.none, t.dt.some(int_of_val(v.term))), t)
+        return NotImplemented
+
     # ------------------------------------------------------------------ attributes
     def set_attr(self, ex, obj, attr, v, lineno):
         if _on(ex) and attr == "dtype" and _is_arr(ex, obj):
@@ -196,6 +355,24 @@ class C14Models:
         from .models import DictView
 
         st = ex.st
+        if name == "openturns.RandomGenerator.SetSeed" and len(args) == 1 and not kwargs:
+            st.ghost_set("c14_ot_seed", TInt.embed(st, args[0]))
+            return None
+        if name in ("numpy.random.RandomState", "numpy.random.mtrand.RandomState") and len(args) == 1 and not kwargs:
+            ex.assumed.add("numpy.random.RandomState(seed): a deterministic uninterpreted function c14_random_state of the seed")
+            return SV(random_state(TInt.embed(st, args[0])), TVal)
+        if name == "packaging.version.parse" and len(args) == 1 and isinstance(args[0], str):
+            return VersionV(args[0])
+        if name == "int" and len(args) == 1 and not kwargs and isinstance(args[0], SV) and args[0].ty == TReal:
+            # int(x) of a float: truncation toward zero.  For a quotient num / den the bounds are also stated multiplied by a positive
+            # denominator (consequences of the same definition, in a form linear in the products den * r)
+            q = args[0].term
+            r = st.fresh_int("trunc")
+            st.assume(z3.If(q >= 0, z3.And(z3.ToReal(r) <= q, q < z3.ToReal(r) + 1), z3.And(z3.ToReal(r) - 1 < q, q <= z3.ToReal(r))))
+            if z3.is_app(q) and q.decl().kind() == z3.Z3_OP_DIV:
+                num, den = q.arg(0), q.arg(1)
+                st.assume(z3.Implies(z3.And(den > 0, num >= 0), z3.And(den * z3.ToReal(r) <= num, num < den * z3.ToReal(r) + den, r >= 0)))
+            return SV(r, TInt)
         if name == "list" and len(args) == 1 and isinstance(args[0], DictView) and args[0].kind == "values":
             o = st.heap[args[0].ref.id]
             if o.is_empty_literal:
